@@ -737,11 +737,19 @@ pub enum Delivery {
     /// send the first `c` bytes, WAIT for the replies of every request completely contained in
     /// them, then send the rest (a reply must not depend on bytes the client has not sent yet)
     CutWait(usize),
+    /// key "h" holds a value of this many bytes (put there through the handle); the client sends
+    /// the whole word and starts reading only once the server has gone idle, i.e. is blocked in the
+    /// middle of a reply that does not fit into the socket buffers
+    LateReader(usize),
+}
+
+pub fn huge_value(n: usize) -> Vec<u8> {
+    (0..n).map(|i| (i % 251) as u8).collect()
 }
 
 fn caps_for(d: &Delivery, n: usize) -> Option<Vec<usize>> {
     match d {
-        Delivery::Whole | Delivery::LockStep | Delivery::CutWait(_) => None,
+        Delivery::Whole | Delivery::LockStep | Delivery::CutWait(_) | Delivery::LateReader(_) => None,
         Delivery::ByteWise => Some(vec![1; n]),
         Delivery::Cuts(c) => {
             let mut v = vec![];
@@ -766,10 +774,29 @@ pub fn c06_case(dir: &Path, word: &[Req], delivery: &Delivery) -> Result<String,
         stream.extend_from_slice(&r.encode());
         expected.extend_from_slice(&enc(&r.apply(&mut model)));
     }
+    if let Delivery::LateReader(n) = delivery {
+        let v = huge_value(*n);
+        srv.handle.set(Bytes::from_static(b"h"), Bytes::from(v.clone())).map_err(|e| ("MACHINERY".to_string(), e.to_string()))?;
+        model.insert(b"h".to_vec(), v);
+        expected.clear();
+        let mut m2 = model.clone();
+        for r in word {
+            expected.extend_from_slice(&enc(&r.apply(&mut m2)));
+        }
+        model = m2;
+    }
     let res = (|| -> Result<String, (String, String)> {
         let mut c = srv.connect().map_err(|e| ("MACHINERY".to_string(), format!("connect: {}", e)))?;
         let mut got = vec![];
         match delivery {
+            Delivery::LateReader(_) => {
+                let e0 = srv.epoch();
+                c.write_all(&stream).map_err(|e| ("connection-broken".to_string(), format!("write: {}", e)))?;
+                // nothing is read until the server has nothing left that it can do
+                if !srv.quiesce(e0) {
+                    return Err(("MACHINERY".into(), "no quiescence with a client that does not read".into()));
+                }
+            }
             Delivery::LockStep => {
                 let mut m2 = Kv::new();
                 for r in word {
@@ -825,13 +852,13 @@ pub fn c06_case(dir: &Path, word: &[Req], delivery: &Delivery) -> Result<String,
             } else {
                 "wrong-reply"
             };
-            return Err((class.into(), format!("replies {:?}, expected {:?}", show_frames(&gf), show_frames(&ef))));
+            return Err((class.into(), format!("replies {:?} ({} bytes), expected {:?} ({} bytes)", show_frames(&gf), got.len(), show_frames(&ef), expected.len())));
         }
         Ok(format!("{} replies", word.len()))
     })();
     iohook::recv_set_script(vec![], usize::MAX);
     // store contents through the handle
-    let keys: Vec<Vec<u8>> = vec![b"a".to_vec(), b"b".to_vec(), b"c".to_vec(), "é".as_bytes().to_vec()];
+    let keys: Vec<Vec<u8>> = vec![b"a".to_vec(), b"b".to_vec(), b"c".to_vec(), "é".as_bytes().to_vec(), b"h".to_vec()];
     let contents = srv.store_contents(&keys);
     let stopped = srv.stop();
     let r = res?;
@@ -845,10 +872,11 @@ pub fn c06_case(dir: &Path, word: &[Req], delivery: &Delivery) -> Result<String,
 }
 
 fn show_kv(m: &Kv) -> Vec<(String, String)> {
-    m.iter().map(|(k, v)| (hex(k), hex(v))).collect()
+    m.iter().map(|(k, v)| (hex(k), if v.len() > 64 { format!("<{} bytes:{:016x}>", v.len(), fnv(v)) } else { hex(v) })).collect()
 }
 fn show_frames(f: &[RFrame]) -> String {
     let s = format!("{:?}", f.iter().map(|x| match x {
+        RFrame::Bulk(b) if b.len() > 64 => format!("$<{} bytes:{:016x}>", b.len(), fnv(b)),
         RFrame::Bulk(b) => format!("${}", hex(b)),
         RFrame::Simple(s) => format!("+{}", String::from_utf8_lossy(s)),
         RFrame::Error(s) => format!("-{}", String::from_utf8_lossy(s)),
@@ -928,6 +956,24 @@ fn c06(job: &Job, sh: &mut Shard, t0: Instant) {
             }
         }
     }
+    // replies that do not fit into the socket buffers, to a client that reads late: the value sizes
+    // straddle the buffer sizes of a loopback connection (tcp_wmem / tcp_rmem maxima are 4-6 MiB)
+    {
+        let geth = Req::Get(b"h".to_vec());
+        let tails = vec![vec![], vec![Req::Get(b"a".to_vec())], vec![Req::Set(b"a".to_vec(), b"x".to_vec()), Req::Get(b"a".to_vec())], vec![Req::Del(vec![b"h".to_vec(), b"h".to_vec(), b"zz".to_vec()]), geth.clone()]];
+        let sizes: Vec<usize> = if job.tier == Tier::Quick { vec![300_000, 8 << 20] } else { vec![20_000, 300_000, 1 << 20, 3 << 20, 8 << 20, 16 << 20] };
+        for n in sizes {
+            for reps in [1usize, 2, 5] {
+                for t in &tails {
+                    let mut w = vec![geth.clone(); reps];
+                    w.extend(t.iter().cloned());
+                    cases.push((w, Delivery::LateReader(n)));
+                }
+            }
+        }
+        // a deep pipeline of moderately large replies (40 x 1 MiB) read late
+        cases.push((vec![geth.clone(); 40], Delivery::LateReader(1 << 20)));
+    }
     let dir = job.scratch().join("store");
     let total = cases.len();
     for (i, (w, d)) in cases.into_iter().enumerate() {
@@ -939,7 +985,7 @@ fn c06(job: &Job, sh: &mut Shard, t0: Instant) {
             sh.notes.insert(format!("stopped (time cap or 6 violations in this shard) after {} of {} cases", i, total));
             break;
         }
-        let case = json!({"engine": "net", "kind": "c06", "word": w.iter().map(|r| r.to_json()).collect::<Vec<_>>(), "word_text": w.iter().map(|r| r.show()).collect::<Vec<_>>(), "delivery": format!("{:?}", d), "cuts": match &d { Delivery::Cuts(c) => json!(c), Delivery::ByteWise => json!("bytewise"), Delivery::LockStep => json!("lockstep"), Delivery::Whole => json!("whole"), Delivery::CutWait(c) => json!({"cut_wait": c}) }});
+        let case = json!({"engine": "net", "kind": "c06", "word": w.iter().map(|r| r.to_json()).collect::<Vec<_>>(), "word_text": w.iter().map(|r| r.show()).collect::<Vec<_>>(), "delivery": format!("{:?}", d), "cuts": match &d { Delivery::Cuts(c) => json!(c), Delivery::ByteWise => json!("bytewise"), Delivery::LockStep => json!("lockstep"), Delivery::Whole => json!("whole"), Delivery::CutWait(c) => json!({"cut_wait": c}), Delivery::LateReader(n) => json!({"late_reader_value_bytes": n}) }});
         if i % 32 == job.shard {
             job.progress(&case);
         }
@@ -949,7 +995,7 @@ fn c06(job: &Job, sh: &mut Shard, t0: Instant) {
         sh.nontrivial.insert(wkey);
         sh.states.insert(fnv(format!("{:?}{:?}", w, d).as_bytes()));
         match c06_case(&dir, &w, &d) {
-            Ok(o) => sh.outcome(format!("{} / {}", o, match d { Delivery::Whole => "whole", Delivery::ByteWise => "bytewise", Delivery::Cuts(ref c) if c.len() == 1 => "1 cut", Delivery::Cuts(_) => "2 cuts", Delivery::LockStep => "lockstep", Delivery::CutWait(_) => "cut+wait" })),
+            Ok(o) => sh.outcome(format!("{} / {}", o, match d { Delivery::Whole => "whole", Delivery::ByteWise => "bytewise", Delivery::Cuts(ref c) if c.len() == 1 => "1 cut", Delivery::Cuts(_) => "2 cuts", Delivery::LockStep => "lockstep", Delivery::CutWait(_) => "cut+wait", Delivery::LateReader(_) => "late reader" })),
             Err((class, msg)) if class == "MACHINERY" => sh.machinery_errors.push(format!("C06 {}: {}", msg, case["word_text"])),
             Err((class, msg)) => {
                 // confirm once before reporting
@@ -995,6 +1041,7 @@ pub fn replay(prop: &str, case: &Value) -> Vec<Violation> {
                 Value::String(s) if s == "bytewise" => Delivery::ByteWise,
                 Value::String(s) if s == "lockstep" => Delivery::LockStep,
                 Value::Object(o) if o.contains_key("cut_wait") => Delivery::CutWait(o["cut_wait"].as_u64().unwrap_or(1) as usize),
+                Value::Object(o) if o.contains_key("late_reader_value_bytes") => Delivery::LateReader(o["late_reader_value_bytes"].as_u64().unwrap_or(1) as usize),
                 _ => Delivery::Whole,
             };
             if let Err((class, msg)) = c06_case(&dir, &word, &d) {
